@@ -383,7 +383,9 @@ func runCase(c driver.Case) driver.Result {
 			}
 			isFinal := i+1 < len(ev) && ev[i+1].Kind != rec.Next
 			countTriggered := op == "buffertimeorcount" && len(vals) == size
-			if !isFinal && !countTriggered {
+			// (only for BufferWithTime: with a count trigger a size-triggered flush racing a tick can emit a
+			// partial buffer, so "shorter than size" does not identify the tick-triggered ones)
+			if !isFinal && !countTriggered && op == "buffertime" {
 				if e.T-ts < (timed+1)*int64(d) {
 					return fail("time-buffer-emitted-early", fmt.Sprintf("time-triggered buffer #%d delivered %s after subscription, before %d period(s) of %v", timed, ms(e.T-ts), timed+1, d))
 				}
